@@ -61,6 +61,7 @@ func c03WholeBody(t *testing.T, s *sim.Scn, o *sim.Outcome) {
 			rw.aggAddr = fmt.Sprintf("%s/p2p/%s", addr, pid)
 		}
 	}
+	rw.applyJitter()
 	agg, full, light := rw.nodes[0], rw.nodes[1], rw.nodes[2]
 	rw.w.DA.AutoAdvance = true
 	// cfg evil=1: a third party runs its own sequencer node for the same chain id - a complete, unmodified node
@@ -373,7 +374,7 @@ func c03WholeBody(t *testing.T, s *sim.Scn, o *sim.Outcome) {
 }
 
 func c03WholeGen(r *rand.Rand, tier string) *sim.Scn {
-	s := &sim.Scn{Cfg: map[string]int64{"whole": 1, "bt": []int64{300, 500, 1000}[r.IntN(3)], "dat": []int64{1000, 2000}[r.IntN(2)], "linkms": r.Int64N(40), "evil": []int64{0, 0, 1, 2}[r.IntN(4)]}}
+	s := &sim.Scn{Cfg: map[string]int64{"whole": 1, "bt": []int64{300, 500, 1000}[r.IntN(3)], "dat": []int64{1000, 2000}[r.IntN(2)], "linkms": r.Int64N(40), "evil": []int64{0, 0, 1, 2}[r.IntN(4)], "jitter": []int64{0, 0, 0, 400, 4000}[r.IntN(5)], "jsalt": r.Int64N(1 << 30)}}
 	n := 6 + r.IntN(14)
 	for i := 0; i < n; i++ {
 		switch x := r.IntN(100); {
